@@ -362,6 +362,79 @@ func c20Typestate(p *an.Prog, r *an.R) {
 			}
 		}
 	}
+	// the function installed as process.releaseFunc looks at the cell on every path: a Release that can return
+	// without examining whether a slot is held leaves it to somebody else to give the slot back
+	var examines func(body *ast.BlockStmt, depth int) bool
+	examines = func(body *ast.BlockStmt, depth int) bool {
+		if body == nil || depth > 2 {
+			return false
+		}
+		g := an.NewG(info, body)
+		cut := func(k an.Loc) bool {
+			hit := false
+			an.Inspect(g.Node(k), false, func(m ast.Node) bool {
+				switch x := m.(type) {
+				case *ast.BinaryExpr:
+					if (x.Op == token.NEQ || x.Op == token.EQL) && ((c20IsCell(info, x.X, semVar) && isNilExpr(info, x.Y)) || (c20IsCell(info, x.Y, semVar) && isNilExpr(info, x.X))) {
+						hit = true
+					}
+				case *ast.CallExpr:
+					// a local closure or a method of the package that itself examines the cell
+					if id, ok := ast.Unparen(x.Fun).(*ast.Ident); ok {
+						if dd := defOf(info, d.Decl.Body, id); dd != nil {
+							if fl, ok := ast.Unparen(dd).(*ast.FuncLit); ok && examines(fl.Body, depth+1) {
+								hit = true
+							}
+						}
+					}
+					if callee := an.Callee(info, x); callee != nil && callee.Pkg() == d.Pkg.Types {
+						if hd := p.Decl(callee); hd != nil && examines(hd.Decl.Body, depth+1) {
+							hit = true
+						}
+					}
+				}
+				return !hit
+			})
+			return hit
+		}
+		return !g.Reach(g.Entry(), false, &an.Search{ExitIsTarget: true, Cut: cut})
+	}
+	nRel := 0
+	ast.Inspect(d.Decl.Body, func(n ast.Node) bool {
+		cl, ok := n.(*ast.CompositeLit)
+		if !ok {
+			return true
+		}
+		v := litField(cl, "releaseFunc")
+		if v == nil {
+			return true
+		}
+		nRel++
+		var body *ast.BlockStmt
+		e := ast.Unparen(v)
+		if dd := defOf(info, d.Decl.Body, e); dd != nil {
+			e = ast.Unparen(dd)
+		}
+		switch x := e.(type) {
+		case *ast.FuncLit:
+			body = x.Body
+		case *ast.SelectorExpr:
+			if mf, ok := info.Uses[x.Sel].(*types.Func); ok {
+				if hd := p.Decl(mf); hd != nil {
+					body = hd.Decl.Body
+				}
+			}
+		}
+		key := an.FuncName(f) + "/releaseFunc/examines-the-held-slot-on-every-path"
+		if body == nil {
+			r.Und("C20.R2", key, v.Pos(), "the value installed as releaseFunc is neither a function literal, a local closure nor a method")
+			return true
+		}
+		r.Check(examines(body, 0), "C20.R2", key, v.Pos(), "every path through the release function tests the held slot (sem != nil) or calls a function that does",
+			"the release function can return without looking at the slot it may hold (an early return ahead of the sem != nil test): whether the slot is given back then depends on another party, and a slot acquired in between (yield to the batch queue) is never released")
+		return true
+	})
+	r.Floor("C20.R2.release-functions", 1, nRel)
 	r.Floor("C20.R2.closures", 1, lits)
 	r.Floor("C20.R2.release-sites", 1, releases)
 	r.Floor("C20.R2.sem-assignments", 1, sets)
